@@ -117,7 +117,7 @@ class World:
         self.stats = dict(accepted=0, results_ok=0, results_oom=0, susp_accepted=0, susp_done=0,
                           rejected=0, pool_kills=0, retries=0)
         self.all_pipes = []
-        for i, ps in enumerate(sc.get("pipelines", [])):
+        for i, ps in enumerate(sc.get("pipelines") or []):
             p, ops = build_pipeline(f"p{i+1}", ps)
             self.all_pipes.append((p, ops, ps))
             for j, op in enumerate(ops):
@@ -135,6 +135,7 @@ class World:
         self.susp_track = {}      # key -> dict(start_tick, D, pool, cpu, ram, ops, cur)
         self.asg_seen = {}        # id(assignment) -> assignment (accepted)
         self.model_dead = False
+        self.exec_call = None     # F6 routes the call to the unwrapped Executor.run_one_tick
 
     # -- helpers -----------------------------------------------------------
     def close(self):
@@ -266,7 +267,7 @@ class World:
         pre_ids = {c.container_id for p in ex.pools for c in p.active_containers + p.suspending_containers}
         results, exc = None, None
         try:
-            results = ex.run_one_tick(sus, asg)
+            results = (self.exec_call or ex.run_one_tick)(sus, asg)
         except Exception as e:
             exc = e
             self.exception = ("exec", self.tick, e, site_of(e))
